@@ -29,6 +29,8 @@ NoUseOfNull == pc = "run" => (failed = 0 \/ k < failed)       \* never runs on a
 Terminates == <>(pc \in {"died", "returned"})
 
 \* fate observed from a real execution with the i-th request failing (0 = none):
-\*   "D" handler then abort, "R" returned, "S" other signal, "A" abort without the handler, "X" exit
-FateAllowed(i, fate) == IF i = 0 THEN fate = "R" ELSE fate = "D"
+\*   "D" handler then abort, "R" returned, "S" other signal, "A" abort without the handler, "X" exit,
+\*   "N" returned after FEWER than i requests: no request failed in this execution (the number of requests of a call
+\*   depends on the schedule in an OpenMP build - which thread's release fills the block cache first) - nothing to judge
+FateAllowed(i, fate) == IF i = 0 THEN fate = "R" ELSE fate \in {"D", "N"}
 =============================================================================
